@@ -189,6 +189,7 @@ def install_spec_builtins(eng):
             return g.key
         return VInt(key_of(args[0]))
     eng.spec_builtins["GenKey"] = VFunc("GenKey", genkey)
+    eng.spec_builtins["IsGlobalSeededRng"] = VFunc("IsGlobalSeededRng", lambda a, k, s, e: VBool(bool(getattr(a[0], "from_global", False))))
 
     def flatlen(args, kwargs, st, eng):
         v = eng.deref(args[0], st)
@@ -308,7 +309,9 @@ def _global_rng(args, kwargs, st, eng):
     """kappadata.utils.random.get_rng_from_global(): a generator seeded from the process-global numpy RNG (one global read)"""
     if "g_global_reads" in st.ghost:
         st.ghost["g_global_reads"] = VInt(st.ghost["g_global_reads"].t + 1)
-    return AbsRng(z3.Int(uid("global_seed")))
+    r = AbsRng(z3.Int(uid("global_seed")))
+    r.from_global = True
+    return r
 
 
 DEFAULT_EXTERNALS = {"kappadata/utils/random.py::get_rng_from_global": _global_rng}
